@@ -573,8 +573,27 @@ def fstring(parts):
             continue
         _, v, conv, spec = p
         if spec:
-            if core.is_sym(v) or isinstance(v, SymStr):
-                raise core.Unsupported("format spec on a symbolic value")
+            if isinstance(v, SymStr):
+                raise core.Unsupported("format spec on symbolic text")
+            if core.is_sym(v):
+                # a rounding format: the printed numeral stands for SOME number within the format's rounding error
+                import re as _re
+
+                m = _re.fullmatch(r"\.(\d+)([gGeEf])", spec)
+                if not m:
+                    raise core.Unsupported(f"format spec {spec!r} on a symbolic value")
+                digits, kind_ = int(m.group(1)), m.group(2)
+                c = core.ctx()
+                r = c.fresh_real("rounded")
+                x = core._real(v)
+                if kind_ in "fF":
+                    c.add((abs(r - x) <= 0.5 * 10 ** (-digits)).e)
+                else:
+                    d_ = digits - 1 if kind_ in "gG" else digits
+                    c.add((abs(r - x) <= abs(x) * 5 * 10 ** (-d_ - 1)).e)
+                out.append(SymStr((Num(r, "float"),)))
+                symbolic = True
+                continue
             out.append(format(v, spec))
             continue
         if conv == ord("r"):
